@@ -270,6 +270,19 @@ PROPS = {
         level_text='Hundreds of cross-front-end comparisons and tens to hundreds of hostile LSP histories per run; liveness is decided as bounded progress plus a /proc deadlock test; held on the histories and schedules that occurred.',
         level_note='Trusted: the stdlib JSON-RPC client (drivers/lspclient.py), regex parsers of the github/short formats, the fresh-session reference. Texts contain no ast-grep-ignore comments (C14 covers them).',
     ),
+    'C08': dict(
+        engines=[('py', 'c08')],
+        cli=True,
+        technique='runtime monitoring at the process boundary: differential oracle over five front ends (library make_edit, scan --json, scan -U, test -U snapshots, language-server diagnostics / quick-fix / fix-all)',
+        rule=('40 (quick) / 400 (thorough) pairs of a JavaScript rule with fix (string form, object form with expandStart/expandEnd, patterns ending in punctuation so that the matched prefix is trimmed, multi-line '
+              'replacements) and a generated source with several matches and multi-byte text. Per pair: (1) the library\'s make_edit for every match (vmon c08-lib), (2) replacementOffsets/replacement of '
+              '`scan -r rule.yml --json=stream`, (3) the file bytes after `scan -r rule.yml -U` vs the splice of the announced edits, (4) `fixed` in tests/__snapshots__ after `test -U` vs the splice of the first '
+              'library edit, (5) ranges and data.fixed of the published diagnostics, the TextEdits of textDocument/codeAction quick-fix and of source.fixAll (positions converted to byte offsets with the driver\'s own line table) '
+              'must all denote the same (byte range, text). evaluations = pairs. Non-trivial = distinct pairs whose edit range differs from the matched node (trimming or expansion active) or whose replacement is multi-line.'),
+        floor={'quick': 30, 'thorough': 300},
+        level_text='Every pair is observed through five independent front ends of the real binaries; held on the pairs executed.',
+        level_note='Trusted: the snapshot YAML scalar reader and the position conversion in drivers/c08.py (characters per line as the server counts them; UTF-16 columns of astral characters are out of scope), the LSP client.',
+    ),
 }
 
 NOT_APPLICABLE = {}
